@@ -246,10 +246,158 @@ fn run_case(fx: &Fx, c: &Case, prior: Option<&[u8]>) -> Result<(), String> {
     Ok(())
 }
 
+/// Damage sweep: every single-byte change and every truncation of a small authentic file, and a grid of positions in
+/// the later records of a 3-chunk file. REF (the acceptance automaton, run on the chunk region under the file's key)
+/// says which prefix is authenticated before the damage: empty -> the output path must be untouched, otherwise it must
+/// hold exactly that prefix; always exit 1. Variants REF still accepts (e.g. a changed counter field) carry no expectation here.
+fn damage_sweep(rep: &'static Report, alice: &Party, bob: &Party) {
+    use crate::report::Tier;
+    let seed = rep.seed;
+    let e = derive32(seed, "c13-sweep-e");
+    let pay = derive32(seed, "c13-sweep-pay");
+    let salt = derive32(seed, "c13-sweep-salt");
+    let pkey = r::pass_key(b"filepw", &salt);
+    let kr = crate::fx::keyring(&[(alice, true), (bob, true)]);
+    struct Base {
+        mode: &'static str,
+        hlen: usize,
+        file: Vec<u8>,
+        key: [u8; 32],
+        aad: Vec<u8>,
+        label: String,
+    }
+    let mut bases: Vec<Base> = vec![];
+    let mut plains: Vec<(String, Vec<u8>, Vec<usize>)> = vec![("small16".into(), plaintext(seed ^ 0xe1, 16), vec![16]), ("three-chunks".into(), plaintext(seed ^ 0xe3, 2 * CS + 77), vec![CS, CS, 77])];
+    if rep.tier == Tier::Thorough {
+        plains.push(("one-chunk-1000".into(), plaintext(seed ^ 0xe2, 1000), vec![1000]));
+        plains.push(("exactly-two-full-chunks".into(), plaintext(seed ^ 0xe4, 2 * CS), vec![CS, CS]));
+    }
+    for (label, p, ch) in &plains {
+        let kf = r::write_key_file(&alice.sk, &bob.pk, &e, &pay, p, ch).unwrap();
+        let fk = r::read_key_file(&bob.sk, &kf).unwrap().file_key;
+        bases.push(Base { mode: "key", hlen: 132, file: kf, key: fk, aad: vec![], label: label.clone() });
+        let pf = r::write_pass_file_with_key(&pkey, &salt, p, ch);
+        bases.push(Base { mode: "pass", hlen: 36, file: pf, key: pkey, aad: r::PASS_MAGIC.to_vec(), label: label.clone() });
+    }
+    // (base index, description, damaged file)
+    let mut jobs: Vec<(usize, String, Vec<u8>)> = vec![];
+    for (bi, b) in bases.iter().enumerate() {
+        let n = b.file.len();
+        let mut flip_at: Vec<usize> = vec![];
+        let mut cut_at: Vec<usize> = vec![];
+        if n <= 2000 {
+            flip_at.extend(0..n);
+            cut_at.extend(0..n);
+        } else {
+            // header and first record boundaries, then a position grid inside every later record
+            flip_at.extend([0, 3, 4, b.hlen - 1, b.hlen, b.hlen + 8, b.hlen + 12, b.hlen + 16]);
+            cut_at.extend([0, 3, b.hlen - 1, b.hlen, b.hlen + 15, b.hlen + 16, b.hlen + 17]);
+            let mut rec = b.hlen;
+            let (recs, _) = r::split_records(&b.file[b.hlen..]);
+            for (ri, rc) in recs.iter().enumerate() {
+                let rlen = 16 + rc.body.len() + 16;
+                let dense = rep.tier == Tier::Thorough;
+                let mut pos: Vec<usize> = if dense { (0..16).collect() } else { vec![0, 7, 8, 11, 12, 15] };
+                pos.extend([16, 17, rlen / 2, rlen - 17, rlen - 16, rlen - 1]);
+                if dense {
+                    pos.extend(rlen - 16..rlen);
+                }
+                pos.sort();
+                pos.dedup();
+                for &o in &pos {
+                    if o < rlen && (ri > 0 || o >= 16) {
+                        flip_at.push(rec + o);
+                    }
+                    if ri > 0 || o > 17 {
+                        cut_at.push(rec + o);
+                    }
+                }
+                cut_at.push(rec + rlen); // exactly at the boundary after record ri (no final record follows)
+                rec += rlen;
+            }
+            cut_at.retain(|&c| c < n);
+        }
+        flip_at.sort();
+        flip_at.dedup();
+        cut_at.sort();
+        cut_at.dedup();
+        for at in flip_at {
+            let mut v = b.file.clone();
+            v[at] ^= 0x01;
+            jobs.push((bi, format!("byte {} changed", at), v));
+        }
+        for at in cut_at {
+            jobs.push((bi, format!("cut to {} bytes", at), b.file[..at].to_vec()));
+        }
+    }
+    let priors: Vec<(&str, Option<Vec<u8>>)> = if rep.tier == Tier::Thorough { vec![("absent", None), ("present", Some(vec![b'X'; 200_000])), ("present-empty", Some(vec![])), ("present-short", Some(b"short".to_vec()))] } else { vec![("present", Some(vec![b'X'; 200_000]))] };
+    let skipped = std::sync::atomic::AtomicU64::new(0);
+    let early = std::sync::atomic::AtomicU64::new(0);
+    let later = std::sync::atomic::AtomicU64::new(0);
+    jobs.par_iter().for_each(|(bi, what, data)| {
+        let b = &bases[*bi];
+        // expectation
+        let header_damaged = data.len() < b.hlen || data[..b.hlen] != b.file[..b.hlen];
+        let prefix: Vec<u8> = if header_damaged {
+            vec![]
+        } else {
+            match r::read_chunks(&b.key, &b.aad, &data[b.hlen..], 65536) {
+                Ok(_) | Err((r::Reject::Trailing, _)) => {
+                    skipped.fetch_add(1, std::sync::atomic::Ordering::Relaxed);
+                    return;
+                }
+                Err((_, parsed)) => parsed.plaintext,
+            }
+        };
+        if prefix.is_empty() {
+            early.fetch_add(1, std::sync::atomic::Ordering::Relaxed);
+        } else {
+            later.fetch_add(1, std::sync::atomic::Ordering::Relaxed);
+        }
+        for (pn, prior) in &priors {
+            rep.eval(1);
+            rep.nontrivial(format!("sweep-{}-{}-{}-{}", b.mode, b.label, what, pn).as_bytes());
+            let attempt = || -> Result<(), String> {
+                let sc = Scratch::new();
+                sc.write("kr.txt", kr.as_bytes());
+                sc.write("in.ktl", data);
+                if let Some(p) = prior {
+                    sc.write("out.bin", p);
+                }
+                let cmd = if b.mode == "key" { Cmd::new(&["decrypt", "in.ktl", "-t", "bob", "-k", "kr.txt", "-o", "out.bin", "--env-pass"]).env("KESTREL_PASSWORD", "bobpw") } else { Cmd::new(&["password", "decrypt", "in.ktl", "-o", "out.bin", "--env-pass"]).env("KESTREL_PASSWORD", "filepw") };
+                let out = proc::run(&cmd, &sc.0);
+                out.well_behaved()?;
+                if out.code != Some(1) {
+                    return Err(format!("expected exit 1, got {:?} ({})", out.code, out.summary()));
+                }
+                let after = sc.read("out.bin");
+                if prefix.is_empty() {
+                    if after != *prior {
+                        return Err(format!("failure before any authenticated output existed, but the output path went from {:?} to {:?} bytes", prior.as_ref().map(|p| p.len()), after.as_ref().map(|p| p.len())));
+                    }
+                } else if after.as_deref() != Some(&prefix[..]) {
+                    return Err(format!("a later chunk failed: the output path holds {:?} bytes, expected exactly the {} authenticated bytes", after.as_ref().map(|p| p.len()), prefix.len()));
+                }
+                Ok(())
+            };
+            if attempt().is_err() {
+                if let Err(e2) = attempt() {
+                    rep.violation(
+                        &format!("sweep/{}-{}/{}", b.mode, if prefix.is_empty() { "early" } else { "later" }, pn),
+                        json!({"kind":"sweep","mode":b.mode,"base":b.label,"damage":what,"prior":pn}),
+                        format!("{} decrypt of the {} file with {} [output path {}]: {}", b.mode, b.label, what, pn, e2),
+                    );
+                }
+            }
+        }
+    });
+    rep.extra("damage_sweep", json!({"bases":bases.len(),"damaged_files":jobs.len(),"still_accepted_by_REF_no_expectation":skipped.load(std::sync::atomic::Ordering::Relaxed),"early_failures":early.load(std::sync::atomic::Ordering::Relaxed),"later_chunk_failures":later.load(std::sync::atomic::Ordering::Relaxed),"prior_states":priors.iter().map(|p| p.0).collect::<Vec<_>>()}));
+}
+
 pub fn run(rep: &'static Report) {
     rep.set_rule("E-PROC product: every listed failure cause of every output-writing command (encrypt, decrypt, password encrypt, password decrypt, key generate) x prior state of the output path {absent, present with 200000 sentinel bytes}; the real CLI runs in a scratch directory and the path is compared before/after. Later-chunk failures must leave exactly the authenticated prefix. distinct non-trivial = distinct (command, cause, prior state) cases");
     rep.assume("inode and mtime are not compared (the statement speaks of bytes); for trailing data after the final chunk both 'all of P' and 'P without its last chunk' are accepted");
-    let (fx, _alice, _bob) = fixtures(rep.seed);
+    let (fx, alice, bob) = fixtures(rep.seed);
     let cs = cases(&fx);
     let sentinel = vec![b'X'; 200_000];
     let mut jobs = vec![];
@@ -295,6 +443,7 @@ pub fn run(rep: &'static Report) {
             }
         }
     });
+    damage_sweep(rep, &alice, &bob);
     rep.extra("interactive_later_chunk_cases", json!(tty_jobs.len()));
     rep.extra("cases", json!(cs.len()));
     rep.extra("commands", json!(["encrypt", "decrypt", "password encrypt", "password decrypt", "key generate"]));
@@ -307,7 +456,7 @@ pub fn replay(rep: &'static Report, case: &Value) {
     let (fx, _, _) = fixtures(rep.seed);
     let cs = cases(&fx);
     let name = case["name"].as_str().unwrap_or("");
-    if case["kind"] == "case-tty" {
+    if case["kind"] == "case-tty" || case["kind"] == "sweep" {
         println!("  re-running C13 (interactive cases are part of it)");
         run(rep);
         return;
